@@ -3,7 +3,8 @@ import random
 import numpy as np
 import vlib
 
-THEOREMS = ['Libvna.C04.nport_ztoy_exact']          # hand theorems of Libvna.Props.C04
+THEOREMS = ['Libvna.C04.nport_ztoy_exact'] + ['Libvna.C04N.' + t for t in ('waves_iff', 'scaled_iff', 'stoz_matrix', 'stoy_matrix', 'ztos_matrix', 'ytos_matrix',
+                                                                        'stozn_relation', 'stoyn_relation', 'ztosn_relation', 'ytosn_relation')]          # hand theorems of Libvna.Props.C04
 
 NFUNCS = {'vnaconv_stozn': ('s', 'z', True), 'vnaconv_stoyn': ('s', 'y', True), 'vnaconv_ztosn': ('z', 's', True),
           'vnaconv_ytosn': ('y', 's', True), 'vnaconv_ztoyn': ('z', 'y', False), 'vnaconv_ytozn': ('y', 'z', False),
